@@ -174,7 +174,7 @@ func genVCfg(rt *rapid.T, prop string, liq bool) vCfg {
 		switch cfg.Assets[p.Out].DecExp {
 		case 18:
 			p.Floor = rapid.SampledFrom([]string{"10000000000000000", "1000000000000000000"}).Draw(rt, fmt.Sprintf("pfloor%d", i))
-			p.Ceiling = rapid.SampledFrom([]string{"8000000000000000000", "3000000000000000000"}).Draw(rt, fmt.Sprintf("pceil%d", i))
+			p.Ceiling = rapid.SampledFrom([]string{"8000000000000000000", "3000000000000000000", "40000000000000000000"}).Draw(rt, fmt.Sprintf("pceil%d", i))
 		case 8:
 			p.Floor = rapid.SampledFrom([]string{"100000000", "1000000"}).Draw(rt, fmt.Sprintf("pfloor%d", i))
 			p.Ceiling = rapid.SampledFrom([]string{"100000000000000000", "5000000000"}).Draw(rt, fmt.Sprintf("pceil%d", i))
@@ -1088,6 +1088,9 @@ func (m *vMachine) c03Step(i int, op vOp, p *vProduct, b, a vSnap, ok bool, err 
 // ---- running a history ----
 
 func (m *vMachine) finish() {
+	for _, k := range sortedKeys(m.c.HandlerPanics) {
+		m.r.ClassN("handler-panic:"+k, m.c.HandlerPanics[k])
+	}
 	r := m.r
 	for k, n := range m.okKinds {
 		r.ClassN("ok:"+k, n)
